@@ -12,10 +12,6 @@ ROOT = os.path.dirname(os.path.dirname(os.path.abspath(__file__)))
 sys.path.insert(0, ROOT)
 
 NOT_APPLICABLE = {
-    "C09": "Dynamic slicing: under symbolic arguments every path through CHECKED-instrumented code aborts in the tracer's "
-           "id()/hash-based memory bookkeeping (CrossHair proxy intolerance); with realised arguments each path is a plain "
-           "concrete run of the 900-line stack simulator against a hand oracle, i.e. enumeration of concrete runs, which "
-           "this technique family excludes (DESIGN.md section 4).",
     "C16": "Compares two OS processes with different PYTHONHASHSEED; the only varying quantity (C-level string hashing, "
            "hence set/dict order) cannot be a solver variable and a whole generation run per side is beyond any per-path budget.",
     "C18": "Needs a full generation run plus a pytest subprocess per module and seed: whole-program, I/O- and subprocess-bound; "
